@@ -76,12 +76,13 @@ PROPS = {
         "assumptions": ["no integration delays (the properties exclude them)", "times within the range of std::time::Instant"],
     },
     "C19": {
+        "extra": [{"sub": "c19long", "dir": "C19-long", "n": {"quick": 4, "thorough": 40}}],
         "sub": "sim",
         "search_n": {"quick": 30000, "thorough": 300000},
         "shards": {"quick": 1, "thorough": 12},
         "n": {"quick": 1200, "thorough": 240000},
         "coq_sample": {"quick": 6, "thorough": 40},
-        "rule": SIM_RULE % 'The monitor runs every case twice (identical traces), compares the three filtered runs with the projections of the unfiltered run (prefix of max_trace_length elements when bounded), and requires no panic (pps limits include 2^32), non-decreasing time and the configured bounds.',
+        "rule": SIM_RULE % 'The monitor runs every case twice (identical traces), compares the three filtered runs with the projections of the unfiltered run (prefix of max_trace_length elements when bounded), and requires no panic (pps limits include 2^32), non-decreasing time and the configured bounds. An implementation-only probe (c19long, listed under probes) repeats this on runs of 66 000 to 120 000 iterations with trace-length bounds below and above 2^16 (the model run is fuelled for 6000 iterations).',
         "trusted_extra": ['modelled rather than verified (simulator): lib.rs (sim_advanced, pick_next, do_scheduled_action, do_internal_timer, trigger_update, parse_trace), queue.rs, queue_event.rs, queue_peek.rs, network.rs, delay.rs WITHOUT integration delays; std BinaryHeap is modelled exactly (sift_up / sift_down_to_bottom); Instants are unbounded integers (ns), so overflow panics of Instant arithmetic are outside the model', 'the monitors of the simulator properties recover the actions by replaying the returned trace through fresh frameworks seeded as SimState::new does (Xoshiro256StarStar::seed_from_u64(seed), seed+1 for the server)'],
         "assumptions": ["no integration delays (the properties exclude them)", "times within the range of std::time::Instant"],
     },
